@@ -95,6 +95,17 @@ def heavy(ctx, lines):
     return nvlib.run_lines(ctx.harness, lines, timeout=3600, shards=min(nvlib.NPROC, max(1, len(lines))))
 
 
+def statements(cpu):
+    """statements of the corpus (snapshot of tests/comparison) plus corpus/sweep_extra/<cpu>.txt: hand-written
+    jumps, branches and calls with NUMERIC targets (the test corpus writes them with labels, which the generators
+    skip); data for the sweeps only, statements an assembler rejects are ignored"""
+    out = list(S.statements(cpu))
+    p = os.path.join(HERE, "corpus", "sweep_extra", cpu + ".txt")
+    if os.path.exists(p):
+        out += [l.strip() for l in open(p, encoding="latin-1") if l.strip() and l.strip() not in out]
+    return out
+
+
 def cpu_table(ctx):
     """[(name, bytes_per_address)] of every cpu_list entry, from the harness"""
     a = ctx.impl(["cpus"])[0]
@@ -120,12 +131,15 @@ def _with_replay(orc, prop, start):
 # Values put in the place of every numeric literal of a corpus statement: the field boundaries 2^k-1, 2^k, -2^k,
 # -2^k-1, the 32-bit edges, and far PC-relative targets around the load address (A0 +- 2^k, and 2 inside that).
 KB = (3, 4, 5, 6, 7, 8, 11, 12, 15, 16)
-BOUNDARY = [f for k in KB for f in ((1 << k) - 1, 1 << k, -(1 << k), -(1 << k) - 1)] + \
-           [0, 1, 0x7fffffff, 0x80000000, 0xffffffff, -0x80000000, -0x7fffffff]
+EDGES32 = [0x7fffffff, 0x80000000, 0xffffffff, -0x80000000, -0x7fffffff]
+BOUNDARY = [f for k in KB for f in ((1 << k) - 1, 1 << k, -(1 << k), -(1 << k) - 1)] + [0, 1] + EDGES32
 FAR = [x for k in (8, 11, 12, 16, 20, 21, 22, 24, 25)
        for x in (A0 + (1 << k), A0 - (1 << k), A0 + (1 << k) - 2, A0 - (1 << k) + 2) if x >= 0]
 ALLVALS = BOUNDARY + FAR
-QUICK_PICKS = 6
+QUICK_PICKS = 4
+# statements whose mnemonic looks like a jump / branch / call: their literal is a target, the quick tier gives them
+# every far target (the reach of the offset field is what such encoders and decoders get wrong)
+BRANCHLIKE = re.compile(r"^(\w+\s+)?(b|j|c\.j|c\.b|call|rcall|rjmp|acall|ajmp|ljmp|lcall|sjmp|goto|loop|djnz|sob|dbra|lb|br|rj|if_\w+\s+j)", re.I)
 
 
 def _lit(t, w):
@@ -137,8 +151,9 @@ def _lit(t, w):
 
 def variants(st, thorough):
     """[(text, pos, value)]: the statement itself (pos None) and copies with ONE numeric literal replaced.
-    thorough: every value of ALLVALS plus neighbours of the literal; quick: the neighbours and QUICK_PICKS values of
-    ALLVALS chosen by a hash of the statement text (a subset of the thorough set; nothing depends on the seed)."""
+    thorough: every value of ALLVALS plus neighbours of the literal; quick: two neighbours, the five 32-bit edge
+    values, QUICK_PICKS values of ALLVALS chosen by a hash of the statement text, and every far target for a
+    branch-like mnemonic (a subset of the thorough set; nothing depends on the seed)."""
     out = [(st, None, None)]
     h = zlib.crc32(st.encode("latin-1"))
     for li, m in enumerate(NUM.finditer(st)):
@@ -148,7 +163,9 @@ def variants(st, thorough):
         if thorough:
             vals = near + ALLVALS
         else:
-            vals = near[:2] + [ALLVALS[(h + 7 * li + 13 * j) % len(ALLVALS)] for j in range(QUICK_PICKS)]
+            vals = near[:2] + EDGES32 + [ALLVALS[(h + 7 * li + 13 * j) % len(ALLVALS)] for j in range(QUICK_PICKS)]
+            if BRANCHLIKE.match(st):
+                vals += FAR
         seen = set([v])
         for w in vals:
             if w in seen:
@@ -156,6 +173,19 @@ def variants(st, thorough):
             seen.add(w)
             out.append((st[:m.start(1)] + _lit(t, w) + st[m.end(1):], m.start(1), w))
     return out
+
+
+# A listing may end in an annotation of a PC-relative operand - " (14)", " (offset=-2)" after the target address -
+# which is an aid for the reader, not part of the instruction (the assemblers reject it; the seeded demos drop it as
+# well).  The round trips assemble the text without it.  Only a trailing, blank-separated, purely decimal annotation
+# is removed: "ld a,(500)" keeps its operand.
+ANNOT = re.compile(rb"^(.*[^ \t,(]*[0-9][^ \t,(]*)[ \t]+\((offset=)?-?[0-9]+\)[ \t]*$", re.S)
+
+
+def instr_text(txt):
+    """txt without a trailing annotation that follows an operand containing a digit (the target address)"""
+    m = ANNOT.match(txt)
+    return m.group(1) if m else txt
 
 
 def walk_bytes(ctx, items):
@@ -198,7 +228,7 @@ def round_trip(ctx, thorough):
     text, answer)]} (status: "ok" | "ok@" | "err" | "DIED ...")"""
     lines, recs = [], []
     for cpu in corpus_cpus():
-        for st in S.statements(cpu):
+        for st in statements(cpu):
             for (v, pos, w) in variants(st, thorough):
                 lines.append("asm1 %s %x - %s" % (cpu, A0, nvlib.hexs(v)))
                 recs.append({"cpu": cpu, "st": st, "text": v, "pos": pos, "value": w})
@@ -216,7 +246,7 @@ def round_trip(ctx, thorough):
         recs[i]["walk"] = walked[i]
         if walked[i][0] == "ok":
             for off, n, txt in walked[i][1]:
-                lines2.append("asm1 %s %x - %s" % (cpu, A0 + off, txt.hex() or "-"))
+                lines2.append("asm1 %s %x - %s" % (cpu, A0 + off, instr_text(txt).hex() or "-"))
                 meta2.append((i, off, b[off:off + n], txt))
     ans2 = ctx.impl(lines2)
     for (i, off, b, txt), a in zip(meta2, ans2):
@@ -297,7 +327,7 @@ def _c01_oracle(ctx, orc):
 def c06_lines():
     lines, meta = [], []
     for cpu in corpus_cpus():
-        for st in S.statements(cpu):
+        for st in statements(cpu):
             for m in NUM.finditer(st):
                 t = m.group(1)
                 v = int(t, 16) if t.startswith("0x") else int(t)
@@ -567,7 +597,7 @@ def _c07_oracle(ctx, orc):
     # (1) byte strings from the corpus: encodings of the statements and of their boundary variants, single-bit flips
     lines, meta = [], []
     for cpu in corpus_cpus():
-        for st in S.statements(cpu):
+        for st in statements(cpu):
             for (v, pos, w) in variants(st, thorough):
                 lines.append("asm1 %s %x - %s" % (cpu, A0, nvlib.hexs(v)))
                 meta.append((cpu, st, pos))
@@ -598,7 +628,7 @@ def _c07_oracle(ctx, orc):
         n = int(p[0])
         txt = nvlib.unhex(p[1])
         txt = txt.encode("latin-1") if isinstance(txt, str) else txt
-        lines2.append("asm1 %s %x - %s" % (cpu, A0, txt.hex()))
+        lines2.append("asm1 %s %x - %s" % (cpu, A0, instr_text(txt).hex() or "-"))
         meta2.append((cpu, b[:n], txt))
     ans2 = ctx.impl(lines2)
     lines3, meta3 = [], []
